@@ -242,10 +242,12 @@ func (w *world) apply(a act) (r retObs, p string) {
 			w.frames = append(w.frames, "error")
 			return
 		}
+		cls := "error"
 		if err != nil {
-			w.detail = "Compress: " + err.Error()
+			w.detail = "Compress: " + err.Error() // nothing (valid) was emitted: the writer content of this call is not a frame
+		} else {
+			cls = w.project(w.w.buf.Bytes()[before:after], in)
 		}
-		cls := w.project(w.w.buf.Bytes()[before:after], in)
 		w.frames = append(w.frames, cls)
 		if !in.Intact() {
 			w.frames[len(w.frames)-1] = "error"
